@@ -52,7 +52,10 @@ def random_script(rnd: random.Random, length: int) -> List[Dict[str, Any]]:
             r = 1.0
         if style == "keys" and rnd.random() < 0.08:
             out.append({"ev": "Step", "ins": {"k": "READKIL"}})
-        if r < 0.10:
+        if r < 0.04:
+            out.append({"ev": "Timer", "s": 0})          # both timers expire at the same boundary
+            out.append({"ev": "Timer", "s": 1})
+        elif r < 0.12:
             out.append({"ev": "Timer", "s": rnd.choice([0, 1])})
         elif r < 0.16:
             out.append({"ev": "OnKey"})
@@ -110,7 +113,9 @@ def drive_shard(shard_id, items, extra):
 
 
 def _shape(clause: str, impl: str, detail) -> str:
-    kind, pre, post, frame = detail
+    kind, pre, post, frame = detail[:4]
+    if clause in ("StatusNotLost", "DeliveredSourceEnabled"):
+        return detail[4]
     if clause in ("OffStopsTimers", "OffExecutesNothing"):
         return "off-behaves-like-halt"
     if clause == "DeliverOnlyIfEnabled":
@@ -129,7 +134,7 @@ def campaign(cr: CheckRun, items, tag: str) -> None:
     ntr, nev, bad = vlib.trace_campaign("C12", SD, "TraceMachine", "TraceMachine.cfg", items, drive_shard, tag)
     for b, meta in bad:
         d = b["detail"]
-        detail = (d[0], dict(d[1]), dict(d[2]), list(d[3]))
+        detail = (d[0], dict(d[1]), dict(d[2]), list(d[3]), d[4] if len(d) > 4 else "")
         shape = _shape(b["clause"], meta["impl"], detail)
         cr.violation(f"{b['clause']}:{meta['impl']}:{shape}",
                      f"{meta['impl']} machine: {b['clause']} fails at step {b['line']} ({shape}): instr={detail[0]} pre={detail[1]} post={detail[2]} frame={detail[3]}",
